@@ -189,6 +189,16 @@ def run(rep, repo, tier):
   rep.extra["installed_po2_configurations"] = rule_installed(
       rep, repo, ("quantized_po2", "quantized_relu_po2"), "R6", tier,
       po2_configs)
+  # R7: an option exposed through a property setter is honoured when it is
+  # assigned on a live object (rule shared with C09; today no po2 option has
+  # a setter, so the instance count is 0 on the unchanged tree)
+  from . import c09
+  nset = 0
+  for cls in ("quantized_po2", "quantized_relu_po2"):
+    for base in ({}, {"bits": 4}, {"bits": 3, "log2_rounding": "floor"}):
+      nset += c09.rule_setters(rep, repo, repo.module(quant.QMOD), cls,
+                               base, c09.ALTS[cls][1], rule="R7")
+  rep.extra["property_setter_assignments_checked"] = nset
   rep.require_instances("R1", 150)
   rep.require_instances("R2", 150)
   rep.require_instances("R3", 150)
